@@ -36,6 +36,11 @@ def shape_units(tier):
             us.append({'schema': sid, 'shape': sh, 'nlen': 1, 'vlen': 1})
         for sh in ('k', 'kk', 'ukc'):
             us.append({'schema': sid, 'shape': sh, 'nlen': 2, 'vlen': 2})
+        if tier == 'quick' and sid in ('S5', 'S7'):
+            # a key before / after a section whose type has another key type (S5) or the same key
+            # spelling at both levels (S7): 4-line shapes the quick bound otherwise leaves out
+            for sh in ('kukc', 'ukck', 'ukkc'):
+                us.append({'schema': sid, 'shape': sh, 'nlen': 2, 'vlen': 1})
     return us
 
 
